@@ -157,7 +157,7 @@ func Generate(seed uint64, profile string) *Project {
 		for m := 0; m < nM; m++ {
 			c.Methods = append(c.Methods, g.method(&c, m, Pick(r, files)))
 		}
-		if profile == "router" && r.Chance(1, 3) && total+len(c.Methods) < maxRoutes {
+		if profile == "router" && r.Chance(1, 2) && total+len(c.Methods) < maxRoutes {
 			// a literal sibling of a parameter route (same verb): /items/{id} + /items/featured
 			for mi := range c.Methods {
 				m := c.Methods[mi]
@@ -535,7 +535,9 @@ func (g *genState) method(c *Controller, idx int, file string) Method {
 	default:
 		route = "/" + route
 	}
-	if route == "" && !c.HasRoute {
+	if route == "" {
+		// gleece silently ignores a method whose @Route value is empty (it is then not an API endpoint at
+		// all), so an empty method route is not an "annotated route" of the explored space
 		route = "/"
 	}
 	m.Route = route
